@@ -27,6 +27,14 @@ TRUSTED = [
     "hand-written model coq/Model/Casing.v: the three regexes of casing.py as ONE deterministic word scanner (derived by hand from "
     "the greedy/backtracking semantics of Python's re); tied to the real re.sub-based functions by this harness on every run: "
     "exhaustive sweeps compared by a checksum folded inside Coq (vm_compute) and recomputed over the real functions' outputs",
+    "specification coq/Spec/C19Regex.v: parser of the regex subset, backtracking matcher (priority order, captures, negative "
+    "lookahead, zero-width protection of repeats) and the re.sub loop of CPython (empty matches, must_advance) with the "
+    "substitute_word callbacks of casing.py; the scanner is PROVED to compute exactly this on the live pattern strings "
+    "(C19_snake_case_is_re_sub, C19_pascal_case_is_re_sub, C19_camel_case_is_re_sub); the specification itself is tied to "
+    "CPython's re by correspondence on every run: random patterns of the subset x random subjects, a list of engine quirks, the "
+    "two live patterns on the names of the run, every group of every match compared (stage 'regex spec')",
+    "specification coq/Spec/C19Unicode.v: the same matcher on the CODE POINTS of a str, UTF-8 encoding; proved: casing on code "
+    "points, then UTF-8 = the model on the UTF-8 bytes (C19_*_code_points); compared with the real functions on non-ASCII strings",
     "translators harness/gen_c19.py (regex source strings and the patterns actually passed to re.sub, compared in Model/Casing.v) "
     "and harness/gen_tables.py (keyword.kwlist of the running interpreter)",
     "Python side: enumeration order of the sweeps, Fletcher checksum, dynamic construction of one-field / few-field message classes "
@@ -35,7 +43,9 @@ TRUSTED = [
 ]
 ASSUMPTIONS = [
     "str is modelled by its UTF-8 bytes; only ASCII letters/digits are word characters for the regexes, every other code point "
-    "(non-ASCII letters included) is a delimiter, so the strict casing functions are right on all UTF-8 text",
+    "(non-ASCII letters included) is a delimiter, so the strict casing functions are right on all UTF-8 text (now a theorem "
+    "relative to Spec/C19Unicode.v: C19_snake_case_code_points, C19_pascal_case_code_points, C19_camel_case_code_points; "
+    "str.lower/capitalize are modelled on ASCII letters only, which is all the callbacks receive)",
     "sanitize_name / isidentifier / lowercase_first / pythonize_enum_member_name are modelled for ASCII input only "
     "(their theorems quantify over strings of [A-Za-z0-9_])",
     "non-strict mode (strict=False) of snake_case/pascal_case/camel_case is not modelled: nothing in the library or the plugin calls it",
@@ -259,6 +269,122 @@ def compare(ctx, name, pairs):
         if not rebuilt:
             raise
         return lib.coq_compare(ctx, name + "r", IMPORTS, pairs)
+
+
+# ----------------------------------------------------------------------------------------------
+# Spec/C19Regex.v (regex AST, backtracking matcher, the re.sub loop) against CPython's re
+RX_LIT = "abAB1_-"
+RX_SETS = ["[ab]", "[^a]", "[a-b]", "[A-Z]", "[^a-zA-Z0-9]", "[0-9]", "[a-z]", "[^_]", "[b1-]", "[^ab]", "[aA]"]
+# greedy repetition of bodies that can match empty, captures kept across iterations, alternation order, lookahead, ^ inside
+# repetitions; the last three are outside the subset (lazy quantifier, $, backslash): the parser must refuse them (CN)
+RX_QUIRKS = ["(|a)*", "(|a)+", "(a|ab)(c|bcd)?", "(a*)*", "(a*)+", "(a?)*b", "((a)|b)*", "(a)|b", "(?!a)(b|)", "((a)|(b))+",
+             "(a*)(a|b)*", "(a+|b*)*", "(^)*", "(^a|b)*", "(a|^)+", "((?!b)a|b(?!a))*", "(a?)+", "((a)?b)*", "(a(?!b))*|(b)",
+             "x*", "(a|)", "(a|b)*?", "^(a|)+$", "\\d+"]
+
+
+def rx_atom(rng, d):
+    k = rng.random()
+    if k < 0.35:
+        return rng.choice(RX_LIT)
+    if k < 0.6:
+        return rng.choice(RX_SETS)
+    if k < 0.85 and d > 0:
+        return "(" + rx_alt(rng, d - 1) + ")"
+    if k < 0.92 and d > 0:
+        return "(?!" + rx_alt(rng, d - 1) + ")"
+    if k < 0.95:
+        return "^"
+    return rng.choice(RX_LIT)
+
+
+def rx_seq(rng, d):
+    out = []
+    for _ in range(rng.choice([0, 1, 1, 2, 2, 3])):
+        a = rx_atom(rng, d)
+        if a != "^" and not a.startswith("(?!"):
+            a += rng.choice(["", "", "*", "+", "?"])
+        out.append(a)
+    return "".join(out)
+
+
+def rx_alt(rng, d):
+    return "|".join(rx_seq(rng, d) for _ in range(rng.choice([1, 1, 2, 3])))
+
+
+def rx_show(m):
+    return "<" + "".join((g if g is not None else "~") + "|" for g in m.groups()) + ">"
+
+
+def regex_spec_stage(ctx, I, names):
+    """re.sub(pattern, show-all-groups, subject) of CPython against [sub_show] of Spec/C19Regex.v: random patterns of the
+    modelled subset, the quirk list, and the two live patterns of casing.py on the names of this run"""
+    import warnings
+    rng = ctx.rng
+    cases = []
+    sup = re.compile(r"[^\\.${}]*")          # no backslash, dot, dollar, braces: inside the parser's subset
+
+    def add_case(pat, subj, kind):
+        try:
+            with warnings.catch_warnings():
+                warnings.simplefilter("ignore")
+                c = re.compile(pat)
+            exp = cs(c.sub(rx_show, subj))
+        except re.error:
+            return
+        if not sup.fullmatch(pat) or "*?" in pat or "+?" in pat or "??" in pat:
+            exp = CN                          # outside the subset: the specification's parser must refuse it
+        cases.append((f"sub_show {qb(pat)} {qb(subj)}", exp, (kind, pat, subj)))
+        ctx.count("regex_spec:" + kind)
+
+    for pat in RX_QUIRKS:
+        for n in range(0, 4):
+            for t in itertools.product("ab", repeat=n):
+                add_case(pat, "".join(t), "quirk")
+    nrand = 250 if not ctx.thorough else 4000
+    tries = 0
+    while ctx.dist.get("regex_spec:random", 0) < 3 * nrand and tries < 20 * nrand:
+        tries += 1
+        pat = rx_alt(rng, 2)
+        for _ in range(3):
+            add_case(pat, "".join(rng.choice(RX_LIT) for _ in range(rng.randrange(0, 8))), "random")
+    try:
+        C = I.C
+        live = [f"(^)?({C.SYMBOLS})({C.WORD_UPPER}|{C.WORD})", f"({C.SYMBOLS})({C.WORD_UPPER}|{C.WORD})"]
+    except AttributeError:
+        live = []                             # constants renamed: gen/C19Tables.v (T1) decides whether the build still stands
+    for pat in live:
+        for s in [n for n in names if n.isascii()][:400 if not ctx.thorough else 4000]:
+            add_case(pat, s, "live-pattern")
+    # the three casing functions on code points (Spec/C19Unicode.v) against the real functions on str
+    UPOOL = "abzAZ09_. -" + "\u00e9\u00c9\u00df\u4e2d\u03a9\U0001f600\u00a0\u01c5\u0131\u0130\u00aa\u0660\u2160\uff21\uff41\uff11"
+    ustrs = [n for n in names if not n.isascii()]
+    for _ in range(150 if not ctx.thorough else 3000):
+        ustrs.append("".join(rng.choice(UPOOL) for _ in range(rng.randrange(1, 10))))
+    for u in ustrs:
+        try:
+            u.encode("utf-8")
+            exp = cl([cs(I.C.snake_case(u)), cs(I.C.pascal_case(u)), cs(I.C.camel_case(u))])
+        except UnicodeEncodeError:
+            continue
+        except Exception as e:  # noqa
+            exp = ce(lib.exc_kind(e))
+        cases.append(("cp_case [" + "; ".join(str(ord(ch)) for ch in u) + "]%N", exp, ("code-points", "casing.py", u)))
+        ctx.count("regex_spec:code-points")
+    try:
+        bad = lib.coq_compare(ctx, "c19rx", "Model.Casing Spec.C19Regex Spec.C19Unicode", [(m, e) for m, e, _ in cases])
+    except RuntimeError as e:
+        ctx.fail("corr", "the regex specification could not be evaluated: " + str(e)[-500:], no_input=True,
+                 theorem_or_correspondence="T2 Spec/C19Regex.v <-> CPython re")
+        return
+    ctx.cov["disagreements_checked"] += len(cases)
+    ctx.cov["evaluations"] += len(cases)
+    for i in bad[:10]:
+        ctx.fail("corr", f"Spec/C19Regex.v and CPython's re.sub disagree on pattern {cases[i][2][1]!r}, subject {cases[i][2][2]!r}",
+                 input=list(cases[i][2]), expected_model=lib.coq_eval(ctx, "Model.Casing Spec.C19Regex Spec.C19Unicode", cases[i][0]),
+                 observed_impl=cases[i][1], no_input=True, theorem_or_correspondence="T2 Spec/C19Regex.v <-> CPython re")
+    if cases:
+        i = len(cases) // 2
+        ctx.sample({"case": list(cases[i][2]), "model_expr": cases[i][0], "impl": cases[i][1]})
 
 
 # ----------------------------------------------------------------------------------------------
@@ -530,6 +656,9 @@ def run(ctx):
     for i in (0, len(pairs) // 3, len(pairs) // 2, len(pairs) - 1):
         ctx.sample({"case": descr[i], "model_expr": pairs[i][0], "impl": pairs[i][1]})
 
+    # ---------------------------------------------------------------- the regex specification against CPython's re
+    regex_spec_stage(ctx, I, [s for _, s in names])
+
     # ---------------------------------------------------------------- exhaustive sweeps, by checksum
     shards = []
     for alpha, n in [(A8, n5), (ABOUND, 3 if not ctx.thorough else 4)] + ([(ADEEP, 8)] if ctx.thorough else []):
@@ -606,14 +735,15 @@ def run(ctx):
     # ---------------------------------------------------------------- build / proof broken: hunt for a failing input anyway
     # (done above: the oracle always runs over the same names)
     ctx.notes.append("key_safe / pascal_stable / class_name_ok of the model are compared bit by bit with the behaviour of the real "
-                     "functions on every string of the sweeps (they are exact there)")
+                     "functions on every string of the sweeps; in the model they are proved exact for every string "
+                     "(C19_key_safe_iff, C19_pascal_stable_iff, C19_class_name_ok_iff)")
 
 
 def finish(ctx):
     return lib.finish(
         ctx, "proof",
         "Coq theorems over a Gallina mirror of casing.py / naming.py / the from_dict key lookup (one deterministic word scanner for the "
-        "three regexes) + executable correspondence with the real functions: exhaustive sweeps by checksum inside Coq (vm_compute), "
+        "three regexes, proved equal to a regex-semantics specification of re.sub on the live pattern strings) + executable correspondence with the real functions: exhaustive sweeps by checksum inside Coq (vm_compute), "
         "keywords/builtins/corpus case by case, and an end-to-end to_dict -> from_dict oracle on dynamically built message classes",
         ASSUMPTIONS, TRUSTED, RULE,
         extra_cov={"exhaustive": False,
